@@ -187,6 +187,9 @@ impl MaxCharsCommandSizeLimiter {
         // pages (MAX_ARG_STRLEN) whatever the budget is.
         const POINTER_SIZE: usize = std::mem::size_of::<*const std::ffi::c_char>();
         const MAX_ARG_PAGES: usize = 32;
+        // Besides argv[0] the kernel copies the name of the file it executes
+        // (found through PATH, or the command as given) into the same space.
+        const FILE_NAME_ROOM: usize = uucore::libc::PATH_MAX as usize;
         let arg_max = unsafe { uucore::libc::sysconf(uucore::libc::_SC_ARG_MAX) } as usize;
         let page_size = unsafe { uucore::libc::sysconf(uucore::libc::_SC_PAGESIZE) } as usize;
 
@@ -203,6 +206,7 @@ impl MaxCharsCommandSizeLimiter {
             ..Self::new(
                 arg_max
                     .saturating_sub(ARG_HEADROOM)
+                    .saturating_sub(FILE_NAME_ROOM)
                     .saturating_sub(2 * POINTER_SIZE)
                     .saturating_sub(env_size),
             )
